@@ -5,7 +5,8 @@
  *   exit            -> util_exit: records the status, runs the unit's exit-time clauses, ends the path
  *   malloc, realloc -> util_malloc / util_realloc: fail when the harness says so (ENOMEM), otherwise the real
  *                      (CBMC-modelled / libc) allocator, which then does not fail; size and result are recorded
- *   fputc, perror, fprintf, vfprintf -> nothing (stdio output of vwarn has no effect on the contracts' state)
+ *   fputc, perror, fprintf, vfprintf, strlen -> nothing (stdio output of vwarn has no effect on the contracts' state;
+ *                      strlen's library loop trips DFCC's loop instrumentation when loop contracts are applied)
  */
 #ifndef UTIL_COMMON_H
 #define UTIL_COMMON_H
@@ -86,6 +87,7 @@ util_exit(int status)
 #define exit(s)        util_exit(s)
 #define malloc(n)      util_malloc(n)
 #define realloc(p, n)  util_realloc(p, n)
+#define strlen(s)      ((size_t)1)      /* vwarn only looks at fmt[strlen(fmt) - 1] to choose between perror and a newline */
 #define fputc(c, f)    ((void)0)
 #define perror(s)      ((void)0)
 #define fprintf(...)   ((void)0)
@@ -96,6 +98,7 @@ util_exit(int status)
 #undef malloc
 #undef realloc
 #undef exit
+#undef strlen
 
 /* n * m does not fit a size_t:  n*m > MAX  <=>  n != 0 and m > floor(MAX / n).  Written with the same division as
    util.c (SIZE_MAX / n) on the same operands: CBMC then shares the 64-bit divider between code and oracle; with the
